@@ -328,6 +328,26 @@ func factsWithCreation(at *ssa.BasicBlock) []core.CondFact {
 	return facts
 }
 
+// creationIn returns the MakeClosure instruction in `outer` that creates `inner`
+// or the closure (transitively) containing it; nil when inner is not nested in outer.
+func creationIn(outer, inner *ssa.Function) *ssa.MakeClosure {
+	f := inner
+	for f != nil && f.Parent() != outer {
+		f = f.Parent()
+	}
+	if f == nil {
+		return nil
+	}
+	for _, b := range outer.Blocks {
+		for _, in := range b.Instrs {
+			if m, ok := in.(*ssa.MakeClosure); ok && m.Fn == f {
+				return m
+			}
+		}
+	}
+	return nil
+}
+
 // edgeFacts: facts holding when control passes from pred to succ.
 func edgeFacts(pred, succ *ssa.BasicBlock) []core.CondFact {
 	facts := core.FactsAt(pred)
@@ -387,7 +407,9 @@ func (n *nilAnalysis) successFact(call ssa.Value, at *ssa.BasicBlock) bool {
 	}
 	last := tup.Len() - 1
 	lt := tup.At(last).Type()
-	for _, f := range core.FactsAt(at) {
+	// (for a closure, the facts that held where it was created count too: the
+	// `if err != nil { return }` of the enclosing function precedes the closure)
+	for _, f := range factsWithCreation(at) {
 		if isErrorType(lt) {
 			b, ok := f.Cond.(*ssa.BinOp)
 			if !ok || (b.Op != token.EQL && b.Op != token.NEQ) {
@@ -410,6 +432,25 @@ func (n *nilAnalysis) successFact(call ssa.Value, at *ssa.BasicBlock) bool {
 			}
 		} else if isBoolType(lt) && f.Polarity {
 			if ex, ok := n.resolveAt(f.Cond).(*ssa.Extract); ok && ex.Tuple == call && ex.Index == last {
+				return true
+			}
+		} else if isStringType(lt) {
+			b, ok := f.Cond.(*ssa.BinOp)
+			if !ok || (b.Op != token.EQL && b.Op != token.NEQ) {
+				continue
+			}
+			var subj ssa.Value
+			if sv, isS := core.ConstString(b.Y); isS && sv == "" {
+				subj = b.X
+			} else if sv, isS := core.ConstString(b.X); isS && sv == "" {
+				subj = b.Y
+			} else {
+				continue
+			}
+			if (b.Op == token.EQL) != f.Polarity {
+				continue
+			}
+			if ex, ok := n.resolveAt(subj).(*ssa.Extract); ok && ex.Tuple == call && ex.Index == last {
 				return true
 			}
 		}
@@ -544,6 +585,12 @@ func (n *nilAnalysis) evalRaw(v ssa.Value, at *ssa.BasicBlock, seen map[ssa.Valu
 	if ld, ok := core.Strip(v).(*ssa.UnOp); ok && ld.Op == token.MUL {
 		if cell := core.CellOf(ld.X); cell != nil && !core.AddressTaken(cell) {
 			if sts := core.StoresTo(cell); len(sts) == 1 && sts[0].Parent() != ld.Parent() && !seen[sts[0].Val] {
+				// assigned in an enclosing function before the closure that reads it was created:
+				// the facts at the creation site (e.g. the `if err != nil { return }` after the
+				// assignment) hold inside the closure
+				if mc := creationIn(sts[0].Parent(), ld.Parent()); mc != nil && core.InstrDominates(sts[0], mc) {
+					return n.eval(sts[0].Val, mc.Block(), seen)
+				}
 				return n.eval(sts[0].Val, sts[0].Block(), seen)
 			}
 		}
@@ -588,6 +635,9 @@ func (n *nilAnalysis) evalRaw(v ssa.Value, at *ssa.BasicBlock, seen map[ssa.Valu
 		if lbl, ok := fieldSource(x); ok {
 			if n.nilDefaulted(x) {
 				return nilEval{kind: nkNever, raw: nkWithFail, label: "optional field " + lbl + " (defaulted when nil)"}
+			}
+			if n.fieldCheckedByProducer(x, at) {
+				return nilEval{kind: nkNever, raw: nkWithFail, label: "optional field " + lbl + " (required by the helper that produced the object)"}
 			}
 			return nilEval{kind: nkMaybe, raw: nkMaybe, label: "optional field " + lbl}
 		}
@@ -741,11 +791,28 @@ func (n *nilAnalysis) failingCompanion(fn *ssa.Function, r *ssa.Return, v ssa.Va
 			if bv, ok := core.ConstBool(c); !ok || bv {
 				return false
 			}
+		case isStringType(lt):
+			// "(value, problem string)": a non-empty description signals failure
+			if sv, ok := core.ConstString(c); ok {
+				if sv == "" {
+					return false
+				}
+				continue
+			}
+			if _, isCall := c.(*ssa.Call); isCall {
+				continue // formatted description
+			}
+			return false
 		default:
 			return false
 		}
 	}
 	return true
+}
+
+func isStringType(t types.Type) bool {
+	b, ok := t.Underlying().(*types.Basic)
+	return ok && b.Kind() == types.String
 }
 
 func (n *nilAnalysis) errNonNilAt(e ssa.Value, at *ssa.BasicBlock) bool {
@@ -991,6 +1058,79 @@ func (n *nilAnalysis) evalSliceElems(sl ssa.Value, seen map[ssa.Value]bool) nilE
 		}
 	}
 	return out
+}
+
+// fieldCheckedByProducer: ld loads field F of an object that is the result of an
+// in-repo helper call whose success is established here, and that helper
+// returns success only after finding F non-nil ("parse the request, reject it
+// when a required part is missing, hand the object to the handler").
+func (n *nilAnalysis) fieldCheckedByProducer(ld *ssa.UnOp, at *ssa.BasicBlock) bool {
+	fa, ok := ld.X.(*ssa.FieldAddr)
+	if !ok {
+		return false
+	}
+	ex, ok := n.resolveAt(fa.X).(*ssa.Extract)
+	if !ok {
+		return false
+	}
+	call, ok := ex.Tuple.(*ssa.Call)
+	if !ok || !n.successFact(call, at) {
+		return false
+	}
+	callee := call.Call.StaticCallee()
+	if callee == nil || callee.Blocks == nil {
+		return false
+	}
+	if _, known := n.ret[callee]; !known {
+		return false
+	}
+	last := callee.Signature.Results().Len() - 1
+	nSuccess := 0
+	for _, r := range returnsIn(callee) {
+		if ex.Index >= len(r.Results) || last < 0 {
+			return false
+		}
+		success := false
+		for _, ev := range returnValues(r.Results[last]) {
+			ev = n.resolveAt(ev)
+			if isErrorType(ev.Type()) && core.IsNilConst(ev) {
+				success = true
+			} else if bv, isB := core.ConstBool(ev); isB && bv {
+				success = true
+			} else if _, isConst := ev.(*ssa.Const); !isConst && !isErrorType(callee.Signature.Results().At(last).Type()) {
+				success = true // not a recognised failure indicator: assume the return may be a success
+			}
+		}
+		if !success {
+			continue
+		}
+		nSuccess++
+		obj := r.Results[ex.Index]
+		// some load of the same field of the returned object is known non-nil at this return
+		found := false
+		for _, b := range callee.Blocks {
+			for _, in := range b.Instrs {
+				l2, isLd := in.(*ssa.UnOp)
+				if !isLd || l2.Op != token.MUL {
+					continue
+				}
+				fa2, isFa := l2.X.(*ssa.FieldAddr)
+				if !isFa || fa2.Field != fa.Field || !types.Identical(fa2.X.Type(), fa.X.Type()) {
+					continue
+				}
+				if !n.same(fa2.X, obj) && core.Resolve(fa2.X) != core.Resolve(obj) {
+					continue
+				}
+				if n.nonNilFactIn(l2, core.FactsAt(r.Block())) {
+					found = true
+				}
+			}
+		}
+		if !found {
+			return false
+		}
+	}
+	return nSuccess > 0
 }
 
 // nilDefaulted recognises the idiom
